@@ -131,3 +131,71 @@ Proof.
     cbn [zero ROps] in Hfl. destruct Hfl as [Htf Hta]; try lra.
     split; [|exact Hta]. rewrite Hal. apply Rmult_le_pos; [exact Htf|apply dot_self_nonneg].
 Qed.
+
+(** ** quantitative version: vertices inside up to eps (what the halfplane layer guarantees) *)
+Definition inside_eps (eps : R) (t : @tetra R) (p : V3R) : Prop :=
+  - eps <= c0 (bary_coords t p) /\ - eps <= c1 (bary_coords t p) /\ - eps <= c2 (bary_coords t p) /\ - eps <= c3 (bary_coords t p).
+
+Lemma fan_term_lower (eps : R) (t : @tetra R) (e : V4R) (E : R) (v0 a b : V3R) :
+  nondegenerate t -> nonneg4 e -> 0 <= E -> 0 <= eps ->
+  inside_eps eps t v0 -> inside_eps eps t a -> inside_eps eps t b ->
+  let '(pa, ar, _) := fan_term t e E v0 a b in
+  - (eps * E * (c0 e + c1 e + c2 e + c3 e)) * ar <= pa /\ 0 <= ar.
+Proof.
+  intros Hnd (E0 & E1 & E2 & E3) HE Heps (A0 & A1 & A2 & A3) (B0 & B1 & B2 & B3) (C0 & C1 & C2 & C3).
+  unfold fan_term.
+  destruct (bary_centroid t v0 a b Hnd) as (M0 & M1 & M2 & M3). cbv zeta in M0, M1, M2, M3.
+  set (res := bary_coords t (vdivs (vadd (vadd v0 a) b) three)) in *.
+  set (ar := half * norm (cross (vsub a v0) (vsub b v0))).
+  assert (Har : 0 <= ar).
+  { unfold ar. pose proof (norm_nonneg (cross (vsub a v0) (vsub b v0))).
+    assert ((half : R) = / 2) by (unfold half; cbn [cst ROps]; unfold Q2R; simpl; field).
+    cbn [mul ROps]. rewrite H0. nra. }
+  split; [|exact Har].
+  destruct e as [e0 e1 e2 e3]. unfold v4scale. cbn [c0 c1 c2 c3 add mul ROps] in *.
+  assert (L0 : - eps <= c0 res) by (rewrite M0; lra). assert (L1 : - eps <= c1 res) by (rewrite M1; lra).
+  assert (L2 : - eps <= c2 res) by (rewrite M2; lra). assert (L3 : - eps <= c3 res) by (rewrite M3; lra).
+  assert (Hp : - (eps * E * (e0 + e1 + e2 + e3)) <= c0 res * (e0 * E) + c1 res * (e1 * E) + c2 res * (e2 * E) + c3 res * (e3 * E)).
+  { assert (P0 : - eps * (e0 * E) <= c0 res * (e0 * E)) by (apply Rmult_le_compat_r; [apply Rmult_le_pos; assumption|lra]).
+    assert (P1 : - eps * (e1 * E) <= c1 res * (e1 * E)) by (apply Rmult_le_compat_r; [apply Rmult_le_pos; assumption|lra]).
+    assert (P2 : - eps * (e2 * E) <= c2 res * (e2 * E)) by (apply Rmult_le_compat_r; [apply Rmult_le_pos; assumption|lra]).
+    assert (P3 : - eps * (e3 * E) <= c3 res * (e3 * E)) by (apply Rmult_le_compat_r; [apply Rmult_le_pos; assumption|lra]).
+    lra. }
+  apply Rmult_le_compat_r; [exact Har|exact Hp].
+Qed.
+
+Lemma fan_loop_lower (eps : R) (t : @tetra R) (e : V4R) (E : R) (v0 : V3R) :
+  nondegenerate t -> nonneg4 e -> 0 <= E -> 0 <= eps -> inside_eps eps t v0 ->
+  forall (vs : list V3R) (tf ta : R) (tc : V3R),
+    Forall (inside_eps eps t) vs -> 0 <= ta -> - (eps * E * (c0 e + c1 e + c2 e + c3 e)) * ta <= tf ->
+    let '(tf', ta', _) := fan_loop t e E v0 vs (tf, ta, tc) in
+    - (eps * E * (c0 e + c1 e + c2 e + c3 e)) * ta' <= tf' /\ 0 <= ta'.
+Proof.
+  intros Hnd He HE Heps H0. induction vs as [|a vs IH]; intros tf ta tc Hvs Hta Htf; cbn [fan_loop]; [split; assumption|].
+  destruct vs as [|b vs']; [split; assumption|].
+  inversion Hvs as [|? ? Ha Hvs']; subst. inversion Hvs' as [|? ? Hb _]; subst.
+  pose proof (fan_term_lower eps t e E v0 a b Hnd He HE Heps H0 Ha Hb) as Hft.
+  destruct (fan_term t e E v0 a b) as [[f ar] c]. destruct Hft as [Hf Har].
+  apply IH; auto; cbn [add ROps]; [lra|].
+  set (K := eps * E * (c0 e + c1 e + c2 e + c3 e)) in *. nra.
+Qed.
+
+(** pressure >= -eps E (sum of the potentials): the integrated pressure (force along the normal, for a unit
+    normal) is bounded below by -eps E sum(e) times the polygon area; eps = 0 is [pressure_nonneg] *)
+Theorem pressure_lower_bound (eps : R) (t : @tetra R) (e plane : V4R) (poly : list V3R) (E : R) :
+  nondegenerate t -> nonneg4 e -> 0 <= E -> 0 <= eps -> Forall (inside_eps eps t) poly ->
+  dot (xyz plane) (xyz plane) = 1 ->
+  let '(_, f, area) := compute_contact_force t e plane poly E in
+  - (eps * E * (c0 e + c1 e + c2 e + c3 e)) * area <= dot f (xyz plane) /\ 0 <= area.
+Proof.
+  intros Hnd He HE Heps Hin Hn. destruct poly as [|v0 rest].
+  - unfold compute_contact_force. unfold dot, vzero. cbn [vx vy vz add mul zero ROps]. split; lra.
+  - inversion Hin as [|? ? H0 Hrest]; subst.
+    pose proof (force_along_normal t e plane v0 rest E) as Hal.
+    pose proof (fan_loop_lower eps t e E v0 Hnd He HE Heps H0 (firstn 7 rest) zero zero vzero
+                  (Forall_firstn _ _ _ Hrest)) as Hfl.
+    unfold compute_contact_force in *.
+    destruct (fan_loop t e E v0 (firstn 7 rest) (zero, zero, vzero)) as [[tf ta] tc].
+    cbn [zero ROps] in Hfl. destruct Hfl as [Htf Hta]; try lra.
+    split; [|exact Hta]. rewrite Hal, Hn. lra.
+Qed.
